@@ -234,6 +234,8 @@ POINTS:
 				fieldPrefix.WriteString(v)
 			} else {
 				n.diag.Error("point missing tag for flatten operation", fmt.Errorf("tag %s is missing from point", tag))
+				// Drop what was written for this point's earlier tags.
+				fieldPrefix.Reset()
 				continue POINTS
 			}
 		}
